@@ -102,7 +102,7 @@ type Sim struct {
 	// hooks
 	OnCrash func(inc *Inc) // called by driver after tasks were killed
 
-	LastFault string // normalised "kind@seam" of the last fault plan that fired
+	LastFault string            // normalised "kind@seam" of the last fault plan that fired
 	FaultTask string            // task at whose seam the plan fired
 	CrashedAt map[string]string // task name -> seam label it was parked at when its node crashed
 }
